@@ -83,7 +83,10 @@ def generate(run_seed: int, cfg: Dict[str, Any]) -> Dict[str, Any]:
     tables = {}
     for i in range(n_tables):
         nm = f"t{i}"
-        tables[nm] = W.gen_table(rd, nm)
+        if i > 0 and rk.random() < 0.5:
+            tables[nm] = W.gen_twin_table(rd, tables["t0"], nm)
+        else:
+            tables[nm] = W.gen_table(rd, nm)
     pipe = W.gen_pipeline(rp, tables, max_steps=cfg.get("max_steps", 7))
     k = int(cfg.get("schedules", 3))
     schedules = [gen_schedule(rs, tables) for _ in range(k)]
